@@ -15,6 +15,7 @@ TARGETS = [
     {"qual": fc.M_STR + ":parse_float"},
     {"qual": fc.M_OPT + ":Option.parse"},
     {"qual": fc.M_ARG + ":Argument.parse"},
+    fc.SET_DEFAULT,
 ]
 LEMMAS = []
 try:
